@@ -36,7 +36,7 @@ def battery(seed, n):
 
     rng = random.Random("battery/%d" % seed)
     items = []
-    kinds = ["tree", "doc", "doc", "textdoc", "headc", "jsx", "css", "classes", "attrs", "typed_attrs", "jsonmode", "retry", "shared", "longtwin"]
+    kinds = ["tree", "doc", "doc", "textdoc", "headc", "jsx", "css", "classes", "attrs", "typed_attrs", "jsonmode", "retry", "shared", "longtwin", "dyninst", "bigrepr", "headc_list"]
     for i in range(n):
         k = kinds[i % len(kinds)]
         if k == "tree":
@@ -79,6 +79,14 @@ def battery(seed, n):
             # a rendering that fails inside a nested tagify(), then the same tree rendered again
             inner = {"k": "tf", "as": "flaky", "ret": "list", "c": [{"k": "text", "s": "f%d" % i}, gen.TAG("b", ws=False)]}
             items.append((k, gen.TAG("div", gen.TAG("span", {"k": "text", "s": "p"}, inner, ws=False), gen.TAG("p", {"k": "text", "s": "q"}))))
+        elif k == "dyninst":
+            # instances of ONE class that differ in the protocol methods they carry: which kind was met first must not matter
+            items.append((k, {"has": ["tagify", "repr", "repr", "tagify", None][(i // len(kinds)) % 5], "n": i}))
+        elif k == "bigrepr":
+            # short-lived self-rendering objects with large markup, one after the other (addresses get re-used)
+            items.append((k, {"sizes": [rng.choice([100, 2047, 2048, 3000, 5000, 70000]) for _ in range(rng.randint(3, 8))], "n": i}))
+        elif k == "headc_list":
+            items.append((k, {"n": i % 4, "extra": rng.randint(1, 3)}))
         elif k == "longtwin":
             # a long text with metacharacters, once as plain text and (in another item) as HTML(): which came first must not matter
             txt = "long <b>text</b> & more " * 4 + "#%d" % (i % 3)
@@ -135,6 +143,49 @@ def _run_item(kind, r):
             ok = ok and "CHANGED-IN-PLACE" in third
         return {"html": _d(out["html"]), "deps": [d.name + "@" + str(d.version) for d in out["dependencies"]],
                 "same_when_rendered_again": ok}
+    if kind == "dyninst":
+        o = gen.build({"k": "inst", "has": r["has"]})
+        t = ht.div("lead", ht.span(o), o)
+        if r["has"] is None:
+            try:
+                t2 = ht.div(gen.build({"k": "inst", "has": "repr"}))
+                t2.children.data.append(o)   # not a child value: rendering must refuse it, whatever was rendered before
+                return {"html": _d(str(t2))}
+            except Exception as e:
+                return {"html": "raised " + type(e).__name__}
+        return {"html": _d(str(t) + "|" + t.render()["html"] + "|" + str(ht.TagList(o, "x").tagify()))}
+    if kind == "bigrepr":
+        outs, ok = [], True
+        for j, size in enumerate(r["sizes"]):
+            body = ("<i>item %d/%d of %d</i>" % (r["n"], j, size)).ljust(size, "-")
+            o = gen.ReprObj(body)
+            out = ht.div(o, "tail").get_html_string()
+            ok = ok and body in out
+            o.s = body.replace("item", "ITEM")       # the object changed: the next rendering shows its present markup
+            ok = ok and o.s in ht.TagList(o).get_html_string() and o.s in str(ht.span(o))
+            outs.append(out)
+            del o
+        return {"html": _d("".join(outs)), "same_when_rendered_again": ok}
+    if kind == "headc_list":
+        mk = lambda: ht.TagList(ht.tags.title("list-payload %d" % r["n"]))
+        tl = mk()
+        hc1 = ht.head_content(tl)
+        n1 = hc1.name
+        doc1 = ht.HTMLDocument(ht.div(hc1)).render()["html"]
+        for j in range(r["extra"]):
+            tl.append(ht.tags.meta(name="later%d" % j))
+        hc2 = ht.head_content(tl)
+        hc3 = ht.head_content(mk())
+        full = mk()
+        for j in range(r["extra"]):
+            full.append(ht.tags.meta(name="later%d" % j))
+        hc4 = ht.head_content(full)
+        both = ht.HTMLDocument(ht.div(hc1, hc3, "x", hc2, hc4)).render()
+        ok = (hc3.name == n1 and hc1.name == n1 and hc2.name != n1 and hc4.name == hc2.name
+              and ht.HTMLDocument(ht.div(hc1)).render()["html"] == doc1 and "later0" not in doc1
+              and both["html"].count("<title>list-payload") == 2 and both["html"].count('name="later0"') == 1
+              and [d.name for d in both["dependencies"]] == [n1, hc2.name])
+        return {"html": _d(both["html"]), "names": [n1, hc2.name], "same_when_rendered_again": ok}
     if kind == "longtwin":
         x = ht.HTML(r["s"]) if r["html"] else r["s"]
         t = ht.div(x, title=r["s"]) if r["also_attr"] else ht.div(x)
